@@ -30,7 +30,7 @@ def hook_available():
 
 def main():
     ap = argparse.ArgumentParser()
-    ap.add_argument('prop'); ap.add_argument('tier', choices=['quick', 'thorough'])
+    ap.add_argument('prop'); ap.add_argument('tier', choices=['quick', 'thorough', 'dbg'])
     ap.add_argument('--only'); ap.add_argument('--keep', action='store_true'); ap.add_argument('--jobs', type=int, default=int(os.environ.get('VERIF_JOBS', '8')))
     ap.add_argument('--no-evidence', action='store_true'); ap.add_argument('--replay')
     a = ap.parse_args()
